@@ -158,7 +158,8 @@ theorem Binds.nil (s : St) : Binds [] s := by intro x hx; cases hx
 
 theorem block_of_python_block (kind : Str) (hk : matchKinds.contains kind = false)
     (hp : pythonBlockKinds.contains kind = true) : blockKinds.contains kind = true := by
-  simp only [matchKinds, pythonBlockKinds, blockKinds, blockKindNames, List.map_cons, List.map_nil,
+  simp only [matchKinds, pythonBlockKinds, blockKinds, blockKindNames, clauseKindNames, List.cons_append,
+    List.nil_append, List.map_cons, List.map_nil,
     List.contains_eq_mem, List.mem_cons, List.not_mem_nil, or_false, decide_eq_true_eq, decide_eq_false_iff_not,
     not_or] at *
   rcases hp with h | h | h | h | h | h | h | h | h
@@ -167,10 +168,10 @@ theorem block_of_python_block (kind : Str) (hk : matchKinds.contains kind = fals
   · exact Or.inr (Or.inr (Or.inl h))
   · exact Or.inr (Or.inr (Or.inr (Or.inl h)))
   · exact Or.inr (Or.inr (Or.inr (Or.inr (Or.inl h))))
-  · exact Or.inr (Or.inr (Or.inr (Or.inr (Or.inr h))))
-  · exact absurd h hk.2.2
-  · exact absurd h hk.1
-  · exact absurd h hk.2.1
+  · exact Or.inr (Or.inr (Or.inr (Or.inr (Or.inr (Or.inl h)))))
+  · exact absurd h hk
+  · exact Or.inr (Or.inr (Or.inr (Or.inr (Or.inr (Or.inr (Or.inl h))))))
+  · exact Or.inr (Or.inr (Or.inr (Or.inr (Or.inr (Or.inr (Or.inr h))))))
 
 mutual
 theorem register_binds_defs (f : Facts) : (t : Top) → (s s' : St) → plain t = true → regular t = true →
